@@ -65,7 +65,7 @@ def assertion_contexts(tier="quick", ps=None, n=8, ctxs=None, bin_ctxs=None):
             again = pre2 + again
         body, (gv, gv2) = _wrap(ctx.split("+")[0], stmts, nreg, res)
         ins[2], ins[3] = gv, gv2
-        out.append(dict(cfg=dict(p=p, n=n, res=2, ign=0), prog=prog + body + again, ins=ins, matrix=label + ":" + ctx))
+        out.append(dict(cfg=dict(p=p, n=n, res=2, ign=0), prog=prog + body + again, ins=ins, matrix=label + ":" + ctx, pybool=len(out) % 2))
     for p in ps:
         for ctx in ctxs:
             # binary assertions: receiver kind x argument kind x value pairs
@@ -204,4 +204,17 @@ def sign_variants(case):
             out.append(v)
     v = copy.deepcopy(case); v["cfg"]["ign"] = 1
     out.append(v)
+    return out
+
+
+def bigdiv_cases(p=None):
+    """exact divisions whose quotient does not fit a float (above 2^53, odd low bits), by public and secret divisors"""
+    p = p or progs.BN
+    out = []
+    for n, big in ((100, 2 ** 64 + 2 ** 40 + 12345), (100, -(2 ** 70) - 7), (62, 3 * 2 ** 57 + 3), (100, 2 ** 80 + 1)):
+        for d in (3, 7, -3):
+            for kb in ("int", "lc"):
+                for op in ("truediv", "floordiv"):
+                    prog = [["input", 0, "priv", 0], (["const", 1, ["int", d]] if kb == "int" else ["input", 1, "priv", 1]), ["bin", 2, op, 0, 1]]
+                    out.append(dict(cfg=dict(p=p, n=n, res=2, ign=0), prog=prog, ins=[big * d, d, 1, 1], matrix="bigdiv:%s:%s" % (op, kb)))
     return out
